@@ -35,20 +35,21 @@ import (
 // callSpec declares how one callee (key: see callKey) is rendered.
 // Templates: %r = receiver, %0 %1 .. = arguments (translated), %% = percent.
 type callSpec struct {
-	pure    string                              // value of the call as a Coq term; the call has no effect
-	partial bool                                // .. and the term is an option: None = the call panics
-	ev      string                              // event appended to the trace tr_
-	res     string                              // value(s) the call returns; evaluated before the event is appended and the clock ticks
-	tick    bool                                // k_ := S k_ afterwards (one more attempt of the external world)
-	state   string                              // term returning (results.., effect state): a call of another translated function with effects
-	ignore  bool                                // declared to have no effect the model tracks: the statement is dropped, with a note
-	tail    string                              // constructor applied to the effect state for a call in tail position (the function ends with it)
-	spread  bool                                // the call may pass its last argument with ... (the template sees the slice)
-	check   func(x *tr, c *ast.CallExpr) string // extra condition on the call; non-empty = why it is outside the fragment
-	unwrap  bool                                // f(g(..)) as a statement is the statement g(..): f only inspects the error g returns
-	bres    bool                                // the state template returns a bres over the effect names in sub: BOk results state | BRange state | BPanic p state
-	sub     []string
-	lazy    bool // only the arguments the rendering mentions are translated (the others feed a text the model does not keep)
+	pure      string                              // value of the call as a Coq term; the call has no effect
+	partial   bool                                // .. and the term is an option: None = the call panics
+	ev        string                              // event appended to the trace tr_
+	res       string                              // value(s) the call returns; evaluated before the event is appended and the clock ticks
+	tick      bool                                // k_ := S k_ afterwards (one more attempt of the external world)
+	state     string                              // term returning (results.., effect state): a call of another translated function with effects
+	ignore    bool                                // declared to have no effect the model tracks: the statement is dropped, with a note
+	tail      string                              // constructor applied to the effect state for a call in tail position (the function ends with it)
+	spread    bool                                // the call may pass its last argument with ... (the template sees the slice)
+	check     func(x *tr, c *ast.CallExpr) string // extra condition on the call; non-empty = why it is outside the fragment
+	unwrap    bool                                // f(g(..)) as a statement is the statement g(..): f only inspects the error g returns
+	bres      bool                                // the state template returns a bres over the effect names in sub: BOk results state | BRange state | BPanic p state
+	sub       []string
+	lazy      bool // only the arguments the rendering mentions are translated (the others feed a text the model does not keep)
+	ignoreRes bool // the results of a state call used as a statement are dropped (only its effect state is kept)
 }
 
 type target struct {
@@ -1500,6 +1501,9 @@ func (x *tr) effectCallWith(c *ast.CallExpr, cs callSpec, lhs []string, n ast.No
 		x.notes = append(x.notes, "no tracked effect (declared): "+clip(src(n)))
 		return tail()
 	case cs.state != "":
+		if cs.ignoreRes && len(lhs) == 0 {
+			lhs = []string{"_"}
+		}
 		names := append(append([]string{}, lhs...), x.t.effects...)
 		if cs.bres {
 			// the callee returns a bres over (a part of) the effect state: a panic of the callee is a panic
